@@ -76,13 +76,14 @@ class Model:
 
         logger.debug("step, model time: %4d %s", step, self.timer.time)
 
-        # Remove dead particles before the forcing is sampled, so that the
-        # per-particle forcing arrays stay aligned with the state
+        self.release.update()
+
+        # Remove dead particles (also particles released dead) before the forcing
+        # is sampled, so that the per-particle forcing arrays stay aligned with the state
         # (not in the dense layout, where particles are addressed by position)
         if getattr(self.output, "layout", None) == "sparse":
             self.state.compactify()
 
-        self.release.update()
         self.force.update()
 
         if step >= 0:
